@@ -14,8 +14,8 @@ claim("C14", "proof",
       "every path on which an external call raises: exactly one read, then one format of what was read, then one output of "
       "exactly the formatted text; every write goes to the temp path yielded by the atomic context; nothing is committed on "
       "an exceptional exit; no output effect precedes a successful format; in-place targets `path` with .orig backup iff not "
-      "nobackup, otherwise `path` is never a target; one reformat_file call per input, in order; usage errors raise before "
-      "any effect. The crash-atomicity itself is reduced to the assumed strif/os.replace protocol and explored by fault and "
+      "nobackup, otherwise `path` is never a target; one reformat_file call per input, in order; usage errors (an output file for several inputs, "
+      "an in-place run with stdin among the inputs) raise before any effect. The crash-atomicity itself is reduced to the assumed strif/os.replace protocol and explored by fault and "
       "crash injection at every file-system call (bounded layer).",
       "Assumes strif.atomic_output_file's protocol and atomic os.replace; 'at every instant / after any crash' between two "
       "system calls is the operating system's and is not decided by contracts; termination of callees assumed.",
@@ -25,10 +25,10 @@ claim("C16", "proof",
       "Per-field three-way merge semantics of merge_cli_with_config (loop over the live dataclass fields cut by an invariant), "
       "the explicit-flag table of _parse_args against the documented option strings (a flag passed with its default value "
       "still counts), upward search order of find_config_file (loop invariant over the ancestor chain, ghost depth), "
-      "load_config's pyproject section selection, main's find->load->merge->resolve->format order, and 'every accepted key is "
+      "load_config's pyproject section selection, main's find->load->merge->resolve->format order, _needs_file_resolution (plain file arguments never go through the resolver), and 'every accepted key is "
       "an Options attribute that reaches reformat_files or FileResolverConfig' are discharged for all values.",
-      "tomllib and argparse by assumed contract; _parse_config_data (loops over a symbolic dict) is covered only by the "
-      "bounded product; Path.parent chain finite (termination of the upward walk assumed).",
+      "tomllib and argparse by assumed contract (which spellings argparse accepts for a flag -- clusters, prefixes, attached values -- is explored in the bounded layer; one defect there was repaired); _parse_config_data (loops over a symbolic dict) is covered only by the "
+      "bounded product and a function-level sweep; Path.parent chain finite (termination of the upward walk assumed).",
       "contract-based deductive verification: AST->VC generation + z3 (loop invariants, ghost state); bounded product stand-in",
       "DESIGN.md §3 C16")
 claim("C05", "proof",
@@ -156,8 +156,8 @@ claim("C12", "other",
       "Discharged: every subscript-in-range, not-None, assert and pop-from-non-empty obligation and every loop variant of the "
       "functions of the formatting path that are under contract (wrap_paragraph_lines, split_sentences_regex, the sentence and "
       "hard-break wrappers, fill_text, split_frontmatter, the renderer's block and inline methods, doc_transforms, the tag "
-      "handling functions under contract); ST: no regex of the package has a nested unbounded quantifier (pumped input replayed "
-      "when one does); render_list_item's separator carries no trailing "
+      "handling functions under contract, the ignore-file loader incl. its fallback for invalid pattern lines); ST: no regex of the package has a nested unbounded quantifier (pumped input replayed "
+      "when one does), and every regex whose repeat holds an inner repeat passes a bounded timing probe (labelled bounded); render_list_item's separator carries no trailing "
       "blanks. Termination/time of Marko and the regex engines and well-formedness of whole outputs are explored under a "
       "watchdog on Unicode soup and pumped families.", _PIPE_NOTE,
       "contract-based deductive verification: no-raise and variant obligations (AST->VC + z3); bounded fuzzing under a watchdog as stand-in",
